@@ -34,7 +34,7 @@ class Store:
         import time
 
         for fname, data in files.items():
-            self.files[f"{name}/{fname}"] = bytes(data)
+            self.files[f"{name}/{fname}"] = data if type(data).__name__ == "SparseBytes" else bytes(data)
             self.mtimes[f"{name}/{fname}"] = time.time()
 
     def drop_product(self, name):
